@@ -386,6 +386,7 @@ func (s *Service) StartWithBackoff(ctx context.Context, rp *runnablePipeline) er
 	if rp.forceStopped.Load() {
 		return cerrors.FatalError(pipeline.ErrForceStop)
 	}
+	verifhook.Point("lifecycle.recover.checked")
 
 	return s.start(ctx, rp.pipeline.ID, rp)
 }
